@@ -2,7 +2,14 @@
 import os, sys
 sys.path.insert(0, os.path.dirname(os.path.abspath(__file__)))
 import chain_common as cc
+import slash_stage, vlib
 WHAT = {"Atomic": "failed transactions or a refused block / proposal left a trace: roots differ from the node that never saw them, or version / state changed",
         "NoPathError": "after refused / failed inputs a node could not execute a block that the other paths accepted (its working state was damaged)"}
+def slash(v, work, tier, sd):
+    """blocks whose only stake changes are slashes ordered by certificate-results transactions, with transactions between them
+    that fail on delivery AFTER having written (an index entry, a tracker entry): the block's outcome must be what applying
+    its successful transactions alone gives (Slash.tla as the oracle), and a later valid transaction must not be refused"""
+    nodex, _ = vlib.build_harness("nodex")
+    return slash_stage.run(v, work, tier, sd, nodex, pid="C07")
 def main(tier):
-    return cc.run("C07", tier, set(WHAT), WHAT, ["G_ResetBeforeExec"])
+    return cc.run("C07", tier, set(WHAT), WHAT, ["G_ResetBeforeExec"], extra_stage=slash)
